@@ -53,13 +53,15 @@ THEOREMS = [
 SCOPES = ["libraries", "definitions", "ports", "cables", "instances"]
 
 # signature of the known finding each pinned rule of ModelOld.lean stands for
-RULES = ["len255", "underscore", "foldCase", "room"]
+RULES = ["len255", "underscore", "foldCase", "room", "bitForms"]
 RULE_SIG = {
     "len255": "make_valid.length-256",
     "underscore": "make_valid.dash-kept",
     "foldCase": "make_valid.case-insensitive-collision",
     "room": "make_valid.length-over-256",
+    "bitForms": "compose.bus-bit-identifier-collision",
 }
+NR = len(RULES)
 
 # --------------------------------------------------------------------------------------------
 # independent oracle for P  (written from the statement + the reader's rule, not from the model)
@@ -103,8 +105,20 @@ def illegal_kind(ident):
     return None
 
 
+def sib_bits(s):
+    """wire indices of a cable the writer emits wire by wire (several wires, or an array); [] otherwise"""
+    w = s.get("w", 1)
+    lo = s.get("lo", 0)
+    return list(range(lo, lo + w)) if (w > 1 or s.get("arr")) else []
+
+
+def written_forms(ident, bits):
+    """every identifier the file contains for an element: its own and `<id>_<k>_` per wire of a bus"""
+    return [ident] + [ident + "_" + str(k) + "_" for k in bits]
+
+
 def oracle_scope(obs):
-    """obs: list of dicts name, ident, rename, assigned.  Returns list of (signature, index, detail)
+    """obs: list of dicts name, ident, rename, assigned, bits.  Returns list of (signature, index, detail)
     for every element the writer named that violates P."""
     out = []
     for i, x in enumerate(obs):
@@ -116,19 +130,79 @@ def oracle_scope(obs):
             out.append(("make_valid." + k, i, "identifier %r (len %d) is not a legal EDIF identifier" % (idt[:40], len(idt))))
         if not isinstance(idt, str):
             continue
-        fi = fold(idt)
-        for j, y in enumerate(obs):
-            if j == i:
-                continue
-            for what, other in (("name", y["name"]), ("identifier", y["ident"])):
-                if isinstance(other, str) and fold(other) == fi:
-                    # the pinned code compares the lower-cased candidate exactly: every collision it
-                    # lets through involves an upper-case letter on one side
-                    kind = "case-insensitive-collision" if (other != fi or idt != fi) else "lowercase-collision"
-                    out.append(("make_valid." + kind, i,
-                                "identifier %r of element %d equals, ignoring case, the %s %r of sibling %d" % (idt[:40], i, what, other[:40], j)))
+        for fk, mine in enumerate(written_forms(idt, x.get("bits") or [])):
+            fi = fold(mine)
+            for j, y in enumerate(obs):
+                if j == i:
+                    continue
+                theirs = [("name", y["name"], False)]
+                if isinstance(y["ident"], str):
+                    theirs += [("identifier", f, n > 0) for n, f in enumerate(written_forms(y["ident"], y.get("bits") or []))]
+                for what, other, other_is_bit in theirs:
+                    if isinstance(other, str) and fold(other) == fi:
+                        if fk > 0 or other_is_bit:
+                            kind = "compose.bus-bit-identifier-collision"
+                        else:
+                            # the pinned code compared the lower-cased candidate exactly: every collision it
+                            # let through involved an upper-case letter on one side
+                            kind = "make_valid." + ("case-insensitive-collision" if (other != fi or mine != fi) else "lowercase-collision")
+                        out.append((kind, i, "written identifier %r of element %d equals, ignoring case, the %s %r of sibling %d" % (mine[:40], i, what, other[:40], j)))
         if idt != x["name"] and not x["rename"]:
             out.append(("add_rename_property.rename-not-recorded", i, "identifier %r != name %r but EDIF.rename is not set" % (idt[:40], x["name"][:40])))
+    return out
+
+
+def scan_net_identifiers(text):
+    """Token scan of EDIF text (strings are single tokens, no escapes): the identifier of every
+    `(net <id> ...` / `(net (rename <id> "..") ...`, in file order.  None if the text is not tokenisable."""
+    toks = []
+    i, n = 0, len(text)
+    while i < n:
+        c = text[i]
+        if c in " \t\r\n":
+            i += 1
+        elif c in "()":
+            toks.append(c)
+            i += 1
+        elif c == '"':
+            j = text.find('"', i + 1)
+            if j < 0:
+                return None
+            toks.append(("str", text[i + 1:j]))
+            i = j + 1
+        else:
+            j = i
+            while j < n and text[j] not in ' \t\r\n()"':
+                j += 1
+            toks.append(text[i:j])
+            i = j
+    out = []
+    for k in range(len(toks) - 2):
+        if toks[k] == "(" and isinstance(toks[k + 1], str) and toks[k + 1].lower() == "net":
+            if toks[k + 2] == "(" and k + 4 < len(toks) and isinstance(toks[k + 3], str) and toks[k + 3].lower() == "rename":
+                out.append(toks[k + 4] if isinstance(toks[k + 4], str) else None)
+            else:
+                out.append(toks[k + 2] if isinstance(toks[k + 2], str) else None)
+    return out
+
+
+def oracle_nets(nets):
+    """'each ... net': the net identifiers of one cell are legal and pairwise different ignoring case."""
+    out = []
+    seen = {}
+    for k, idt in enumerate(nets):
+        if not isinstance(idt, str):
+            out.append(("compose.net-identifier-missing", k, "net without identifier token"))
+            continue
+        kind = illegal_kind(idt)
+        if kind is not None:
+            sig = "compose_parse.bus-bit-identifier-too-long" if kind.startswith("length") else "compose.net-identifier-" + kind
+            out.append((sig, k, "net identifier %r (len %d) is not a legal EDIF identifier" % (idt[:40], len(idt))))
+        f = fold(idt)
+        if f in seen:
+            out.append(("compose.bus-bit-identifier-collision", k, "nets %d and %d of one cell are both written with identifier %r / %r" % (seen[f][0], k, seen[f][1][:40], idt[:40])))
+        else:
+            seen[f] = (k, idt)
     return out
 
 
@@ -363,10 +437,38 @@ def _observe(objs, pre):
             tok = [bool(rn), text]
         except Exception as e:
             tok = ["raised", exc_family(e)]
+        wires = getattr(o, "wires", None)
+        bits = []
+        if wires is not None and (len(wires) > 1 or o.is_array):
+            bits = [o.lower_index + k for k in range(len(wires))]
         out.append({"name": s["name"], "ident": o.data.get("EDIF.identifier"),
                     "rename": bool(o.data.get("EDIF.rename", False)), "assigned": s.get("ident") is None,
-                    "token": tok})
+                    "token": tok, "bits": bits})
     return out
+
+
+def shape_cable(c, s):
+    """give a Cable the width / lower index / array-ness the input asks for"""
+    w = s.get("w", 1)
+    c.create_wires(w)
+    if s.get("arr") and w == 1:
+        c.is_array = True
+    if s.get("lo", 0) and (w > 1 or s.get("arr")):
+        c.lower_index = s["lo"]
+
+
+def nets_of_free_cables(objs):
+    """what `_output_name_of_cable_wire_` writes for free-standing cables, token-scanned"""
+    import io
+    from spydrnet.composers.edif.composer import ComposeEdif
+    comp = ComposeEdif()
+    comp._output_ = io.StringIO()
+    for c in objs:
+        for w in c.wires:
+            comp._output_.write("(net ")
+            comp._output_name_of_cable_wire_(c, w)
+            comp._output_.write(")\n")
+    return scan_net_identifiers(comp._output_.getvalue())
 
 
 def oracle_tokens(obs):
@@ -401,6 +503,8 @@ def impl_free(inp):
             o["EDIF.identifier"] = s["ident"]
         if s.get("rename"):
             o["EDIF.rename"] = True
+        if inp["scope"] == "cables":
+            shape_cable(o, s)
         objs.append(o)
     comp = ComposeEdif()
     names = EdififyNames()
@@ -414,7 +518,13 @@ def impl_free(inp):
             comp._add_rename_property(o, objs, names)
     except Exception as e:  # the model never refuses
         return {"raised": exc_family(e), "msg": repr(e)[:200]}
-    return {"obs": _observe(objs, inp["sibs"]), "direct": [k, direct]}
+    r = {"obs": _observe(objs, inp["sibs"]), "direct": [k, direct]}
+    if inp["scope"] == "cables" and not any(QUOTE in s["name"] for s in inp["sibs"]):
+        try:
+            r["nets"] = nets_of_free_cables(objs)
+        except Exception as e:
+            r["nets"] = {"raised": exc_family(e)}
+    return r
 
 
 def build_netlist(inp):
@@ -451,8 +561,10 @@ def build_netlist(inp):
         ports.append(p)
     cables = []
     for s, w in zip(inp["cables"], inp["cable_w"]):
+        if "w" not in s:
+            s["w"] = w          # older corpus inputs carry the widths in cable_w only
         c = mark(top.create_cable(name=s["name"]), s)
-        c.create_wires(w)
+        shape_cable(c, s)
         cables.append(c)
     insts = [mark(top.create_child(name=s["name"], reference=leaf), s) for s in inp["instances"]]
     # a few connections so that nets are not all empty
@@ -492,7 +604,11 @@ def impl_netlist(inp, tmpdir):
         ps = [{"name": nm, "ident": None, "rename": False}]
         scopes[sc] = {"pre": ps, "obs": _observe([o], ps)}
     widths = {"cables": [len(c.wires) for c in top.cables], "ports": [len(p.pins) for p in top.ports]}
-    return {"scopes": scopes, "path": path, "widths": widths, "home_index": list(nl.libraries).index(home),
+    nets = None
+    if not any(QUOTE in o["name"] for v in scopes.values() for o in v["obs"]):
+        with open(path) as f:
+            nets = scan_net_identifiers(f.read())     # only the top definition has cables
+    return {"scopes": scopes, "path": path, "widths": widths, "nets": nets, "home_index": list(nl.libraries).index(home),
             "top_index": list(home.definitions).index(top)}
 
 
@@ -595,36 +711,41 @@ class Runner:
         self.seen = {}
 
     # -- model side ---------------------------------------------------------------------------
-    def model_prepass(self, pre, rules=None):
-        req = {"fn": "prepass", "sibs": [{"name": s["name"], "ident": s.get("ident"), "rename": bool(s.get("rename"))} for s in pre]}
+    @staticmethod
+    def msibs(pre, scope):
+        return [{"name": s["name"], "ident": s.get("ident"), "rename": bool(s.get("rename")),
+                 "bits": sib_bits(s) if scope == "cables" else []} for s in pre]
+
+    def model_prepass(self, pre, rules=None, scope=None):
+        req = {"fn": "prepass", "sibs": self.msibs(pre, scope)}
         if rules is not None:
             req["rules"] = rules
         return self.drv.ask(req)
 
-    def attribute(self, pre, impl_out):
+    def attribute(self, pre, impl_out, scope=None, nets=None):
         """Which pinned rules (fewest first) make ModelOld reproduce the implementation?"""
-        combos = sorted(range(1, 16), key=lambda m: bin(m).count("1"))
+        combos = sorted(range(1, 1 << NR), key=lambda m: bin(m).count("1"))
         for m in combos:
-            rules = [not bool(m >> i & 1) for i in range(4)]
-            r = self.drv.ask({"fn": "prepass", "rules": rules,
-                              "sibs": [{"name": s["name"], "ident": s.get("ident"), "rename": bool(s.get("rename"))} for s in pre]})
+            rules = [not bool(m >> i & 1) for i in range(NR)]
+            r = self.drv.ask({"fn": "prepass", "rules": rules, "sibs": self.msibs(pre, scope)})
             if "error" in r:
                 continue
-            if [(o["ident"], o["rename"], o.get("token")) for o in r["out"]] == impl_out:
-                return [RULES[i] for i in range(4) if m >> i & 1]
+            if [(o["ident"], o["rename"], o.get("token")) for o in r["out"]] == impl_out and (nets is None or r.get("nets") == nets):
+                return [RULES[i] for i in range(NR) if m >> i & 1]
         return None
 
     @staticmethod
     def _ascii(pre):
         return all(32 <= ord(c) < 127 for s in pre for c in s["name"] + (s.get("ident") or ""))
 
-    def check_scope(self, inp, scope, pre, obs, report=True):
-        """Returns (set of P-failure signatures, list of corr mismatch records)."""
+    def check_scope(self, inp, scope, pre, obs, report=True, nets=None):
+        """Returns the set of P-failure signatures ("corr" marks a divergence from the model).
+        `nets`: the net identifiers token-scanned from what the writer emitted for this (cable) scope."""
         sigs = set()
         ascii_only = all(ord(c) < 127 and ord(c) >= 32 for s in pre for c in s["name"] + (s.get("ident") or ""))
         # (a) correspondence
         if ascii_only:
-            m = self.model_prepass(pre)
+            m = self.model_prepass(pre, scope=scope)
             if "error" in m:
                 self.res["obligations"].append(("driver answered request", False, m["error"][:200]))
                 return sigs
@@ -636,13 +757,16 @@ class Runner:
                 self.res["obligations"].append(("Spec.scopeOk holds on the model's own output (theorem assign_all_scopeOk)", False, json.dumps(pre)[:300]))
             impl_out = [(o["ident"], o["rename"], o.get("token")) for o in obs]
             model_out = [(o["ident"], o["rename"], o.get("token")) for o in m["out"]]
-            if impl_out != model_out:
-                why = self.attribute(pre, impl_out)
+            if not m.get("netsDistinct", True):
+                self.res["obligations"].append(("net identifiers of the model's own output are distinct (theorem assign_all_netIdents_distinct)", False, json.dumps(pre)[:300]))
+            nets_cmp = nets if (isinstance(nets, list) and scope == "cables") else None
+            if impl_out != model_out or (nets_cmp is not None and nets_cmp != m.get("nets")):
+                why = self.attribute(pre, impl_out, scope, nets_cmp)
                 if report:
                     small = {"level": "free", "scope": scope if scope in SCOPES else "instances", "sibs": pre}
                     if why is None:
-                        self.res.corr_mismatch("make_valid/pre-pass == Spydr.Names.assignAll (%s)" % scope, small,
-                                               impl=impl_out[:6], model=model_out[:6])
+                        self.res.corr_mismatch("make_valid/pre-pass + emitted net identifiers == Spydr.Names.assignAll/emittedNetIdents (%s)" % scope, small,
+                                               impl=[impl_out[:6], (nets_cmp or [])[:8]], model=[model_out[:6], (m.get("nets") or [])[:8]])
                         self.res.dist("corr.unattributed")
                     else:
                         for rule in why:
@@ -655,7 +779,8 @@ class Runner:
         # (b) P on the implementation's output
         fails = oracle_scope(obs)
         if ascii_only:
-            sp = self.drv.ask({"fn": "spec", "obs": [{"name": o["name"], "ident": o["ident"] or "", "rename": o["rename"], "assigned": o["assigned"]} for o in obs]})
+            sp = self.drv.ask({"fn": "spec", "obs": [{"name": o["name"], "ident": o["ident"] or "", "rename": o["rename"], "assigned": o["assigned"],
+                                                       "bits": o.get("bits") or []} for o in obs]})
             lean_bad = sorted(i for i, ok in enumerate(sp.get("elem", [])) if not ok)
             py_bad = sorted(set(i for (_, i, _) in fails))
             if "error" in sp or lean_bad != py_bad:
@@ -674,6 +799,10 @@ class Runner:
         except ImportError:
             pass
         fails = fails + oracle_tokens(obs)
+        if isinstance(nets, list):
+            fails = fails + oracle_nets(nets)
+        elif isinstance(nets, dict):
+            fails = fails + [("compose.net-identifier-raised-" + nets.get("raised", "other"), 0, "writing the net names raised")]
         for sig, i, detail in fails:
             sigs.add(sig)
         self._last_fails = fails
@@ -685,22 +814,23 @@ class Runner:
             if report:
                 self.res.spec_failure("add_rename_property.raised-" + r["raised"], inp, r["msg"])
             return {"add_rename_property.raised-" + r["raised"]}
-        sigs = self.check_scope(inp, inp["scope"], inp["sibs"], r["obs"], report)
+        sigs = self.check_scope(inp, inp["scope"], inp["sibs"], r["obs"], report, nets=r.get("nets"))
         if report and "corr" not in sigs and "direct" in r and self._ascii(inp["sibs"]):
             # direct make_valid call == Spydr.Names.makeValid (only when the scope itself corresponds:
             # a divergence there is already reported and attributed)
             k, got = r["direct"]
             sib = inp["sibs"]
-            m = self.drv.ask({"fn": "makeValid", "name": sib[k]["name"],
-                              "others": [{"name": x["name"], "ident": x.get("ident"), "rename": False} for j, x in enumerate(sib) if j != k]})
+            isc = inp["scope"] == "cables"
+            mv_others = [{"name": x["name"], "ident": x.get("ident"), "rename": False, "bits": sib_bits(x) if isc else []} for j, x in enumerate(sib) if j != k]
+            mv_bits = sib_bits(sib[k]) if isc else []
+            m = self.drv.ask({"fn": "makeValid", "name": sib[k]["name"], "bits": mv_bits, "others": mv_others})
             if m.get("id") != got:
                 why = None
-                for mask in sorted(range(1, 16), key=lambda q: bin(q).count("1")):
-                    rules = [not bool(mask >> i & 1) for i in range(4)]
-                    mo = self.drv.ask({"fn": "makeValid", "rules": rules, "name": sib[k]["name"],
-                                       "others": [{"name": x["name"], "ident": x.get("ident"), "rename": False} for j, x in enumerate(sib) if j != k]})
+                for mask in sorted(range(1, 1 << NR), key=lambda q: bin(q).count("1")):
+                    rules = [not bool(mask >> i & 1) for i in range(NR)]
+                    mo = self.drv.ask({"fn": "makeValid", "rules": rules, "name": sib[k]["name"], "bits": mv_bits, "others": mv_others})
                     if mo.get("id") == got:
-                        why = [RULES[i] for i in range(4) if mask >> i & 1]
+                        why = [RULES[i] for i in range(NR) if mask >> i & 1]
                         break
                 if why is None:
                     self.res.corr_mismatch("EdififyNames.make_valid == Spydr.Names.makeValid", inp, impl=got if not isinstance(got, str) else got[:60], model=str(m.get("id"))[:60])
@@ -716,8 +846,9 @@ class Runner:
                 if not self.first(sig):
                     continue
                 small = self.shrink_free(inp, sig)
-                so = impl_free(small).get("obs", [])
-                d = [f for f in oracle_scope(so) + oracle_tokens(so) if f[0] == sig]
+                sr = impl_free(small)
+                so = sr.get("obs", [])
+                d = [f for f in oracle_scope(so) + oracle_tokens(so) + (oracle_nets(sr["nets"]) if isinstance(sr.get("nets"), list) else []) if f[0] == sig]
                 self.res.spec_failure(sig, small, d[0][2] if d else "")
         return sigs
 
@@ -731,7 +862,10 @@ class Runner:
         r = impl_free(inp)
         if "raised" in r:
             return {"add_rename_property.raised-" + r["raised"]}
-        return set(f[0] for f in oracle_scope(r["obs"]) + oracle_tokens(r["obs"]))
+        fl = oracle_scope(r["obs"]) + oracle_tokens(r["obs"])
+        if isinstance(r.get("nets"), list):
+            fl = fl + oracle_nets(r["nets"])
+        return set(f[0] for f in fl)
 
     def shrink_free(self, inp, sig, budget=400):
         """Greedy: drop siblings, then shorten / simplify names, keeping `sig` failing."""
@@ -806,7 +940,7 @@ class Runner:
                 return {sig}
             p_fail = False
             for sc, v in r["scopes"].items():
-                s = self.check_scope(inp, sc, v["pre"], v["obs"], report)
+                s = self.check_scope(inp, sc, v["pre"], v["obs"], report, nets=r.get("nets") if sc == "cables" else None)
                 for sig in sorted(x for x in s if x != "corr"):
                     p_fail = True
                     if report:
